@@ -1,276 +1,3 @@
-(* C10 — generic lock-discipline development, independent of the code.
-   Actions of one thread in program order; an RWMutex; `wl` = static discipline check;
-   theorem: a table of methods that passes `wl` is race free (and mutually exclusive) for every
-   number of threads, every program built from the table's methods and every schedule.
-   Lemmas and theorem here (this file is the generic theory, not the model of the code). *)
-From Coq Require Import List Arith Bool Lia String.
-Import ListNotations.
-
-Inductive act :=
-| ALock | ARLock | AUnlock | ARUnlock
-| ARead (m : nat) | AWrite (m : nat)
-| AExt          (* a call into code that may re-enter the VM (autoload, user callbacks) *)
-| AOpaque.      (* a construct the source walker does not understand: fails closed *)
-Inductive lmode := Free | Shared | Excl.
-
-(* static discipline check of a method body, threading the held mode: writes only under the
-   exclusive lock, reads under at least the shared lock, no recursive acquisition, no call-out while
-   holding the lock, balanced at the end *)
-Fixpoint wl (h : lmode) (p : list act) : bool :=
-  match p with
-  | [] => match h with Free => true | _ => false end
-  | a :: r =>
-    match a, h with
-    | ALock, Free => wl Excl r
-    | ARLock, Free => wl Shared r
-    | AUnlock, Excl => wl Free r
-    | ARUnlock, Shared => wl Free r
-    | ARead _, (Shared | Excl) => wl h r
-    | AWrite _, Excl => wl h r
-    | AExt, Free => wl Free r
-    | _, _ => false
-    end
-  end.
-
-Definition table := list (string * list act).
-Definition well_locked (tbl : table) : bool := forallb (fun e => wl Free (snd e)) tbl.
-(* the entries that fail, for diagnosis *)
-Definition ill_locked (tbl : table) : list string := map fst (filter (fun e => negb (wl Free (snd e))) tbl).
-
-(* a real execution path of a method performs the lock operations of its table entry and a
-   sub-multiset-with-repetition of its accesses (branches skip accesses, loops repeat them) *)
-Definition is_access (a : act) : bool := match a with ARead _ | AWrite _ | AExt => true | _ => false end.
-Inductive sub : list act -> list act -> Prop :=
-| sub_nil : sub [] []
-| sub_keep a p q : sub p q -> sub (a :: p) (a :: q)
-| sub_skip a p q : is_access a = true -> sub p q -> sub p (a :: q)
-| sub_rep a p q : is_access a = true -> sub p (a :: q) -> sub (a :: p) (a :: q)
-(* a complete balanced region (an inlined callee that takes and releases the lock itself) sitting in a
-   branch or loop of the caller is executed as a whole, skipped as a whole, or repeated as a whole *)
-| sub_skip_region reg p q : wl Free reg = true -> sub p q -> sub p (reg ++ q)
-| sub_rep_region reg p q : wl Free reg = true -> sub p (reg ++ q) -> sub (reg ++ p) (reg ++ q).
-
-(* decidable version used for the regenerated obligation "the model's paths are paths of the table" *)
-Definition act_eqb (a b : act) : bool :=
-  match a, b with
-  | ALock, ALock | ARLock, ARLock | AUnlock, AUnlock | ARUnlock, ARUnlock | AExt, AExt | AOpaque, AOpaque => true
-  | ARead m, ARead n | AWrite m, AWrite n => Nat.eqb m n
-  | _, _ => false
-  end.
-Fixpoint subb (p q : list act) : bool :=
-  match q with
-  | [] => match p with [] => true | _ => false end
-  | b :: q' =>
-      match p with
-      | [] => is_access b && subb [] q'
-      | a :: p' => (act_eqb a b && subb p' q') || (is_access b && subb p q')
-      end
-  end.
-
-(* ---------------------------------------------------------------- the LTS *)
-Definition thread := (lmode * list act)%type.
-Definition state := list thread.
-Definition nobody (pred : lmode -> bool) (s : state) : bool := forallb (fun t => negb (pred (fst t))) s.
-Definition is_excl h := match h with Excl => true | _ => false end.
-Definition is_held h := match h with Free => false | _ => true end.
-
-Fixpoint upd (s : state) (i : nat) (t : thread) : state :=
-  match s, i with [], _ => [] | _ :: r, O => t :: r | x :: r, S j => x :: upd r j t end.
-(* one step of thread i; None = blocked or finished.  Lock needs nobody holding, RLock nobody holding
-   exclusively.  Reads and writes are NOT checked against the lock: that is the point. *)
-Definition step (s : state) (i : nat) : option state :=
-  match nth_error s i with
-  | None => None
-  | Some (h, []) => None
-  | Some (h, a :: r) =>
-    match a with
-    | ALock => if nobody is_held s then Some (upd s i (Excl, r)) else None
-    | ARLock => if nobody is_excl s then Some (upd s i (Shared, r)) else None
-    | AUnlock | ARUnlock => Some (upd s i (Free, r))
-    | ARead _ | AWrite _ | AExt | AOpaque => Some (upd s i (h, r))
-    end
-  end.
-Fixpoint run (s : state) (sched : list nat) : state :=
-  match sched with [] => s | i :: r => match step s i with Some s' => run s' r | None => run s r end end.
-
-Definition excl_alone (s : state) : Prop :=
-  forall i j hi pi hj pj, nth_error s i = Some (hi, pi) -> nth_error s j = Some (hj, pj) -> i <> j ->
-    hi = Excl -> hj = Free.
-Definition all_wl (s : state) : Prop := forall i h p, nth_error s i = Some (h, p) -> wl h p = true.
-
-(* a race: two distinct threads whose next actions touch the same variable, one of them writing *)
-Definition next_acc (t : thread) : option (bool * nat) :=
-  match snd t with ARead m :: _ => Some (false, m) | AWrite m :: _ => Some (true, m) | _ => None end.
-Definition race (s : state) : Prop :=
-  exists i j ti tj wi wj m, i <> j /\ nth_error s i = Some ti /\ nth_error s j = Some tj /\
-    next_acc ti = Some (wi, m) /\ next_acc tj = Some (wj, m) /\ (wi || wj = true).
-
-Lemma nth_upd_same s i t x : nth_error s i = Some x -> nth_error (upd s i t) i = Some t.
-Proof. revert i; induction s as [|y s IH]; intros [|i] H; simpl in *; try discriminate; auto. Qed.
-Lemma nth_upd_other s i j t : i <> j -> nth_error (upd s i t) j = nth_error s j.
-Proof. revert i j; induction s as [|y s IH]; intros [|i] [|j] H; simpl; auto; try lia. Qed.
-
-Lemma nobody_spec pred s : nobody pred s = true -> forall j h p, nth_error s j = Some (h, p) -> pred h = false.
-Proof.
-  unfold nobody. rewrite forallb_forall. intros H j h p Hn. apply nth_error_In in Hn.
-  specialize (H _ Hn). simpl in H. destruct (pred h); auto; discriminate.
-Qed.
-
-Lemma step_inv s i s' : all_wl s -> excl_alone s -> step s i = Some s' -> all_wl s' /\ excl_alone s'.
-Proof.
-  intros W X. unfold step. destruct (nth_error s i) as [[h [|a r]]|] eqn:Ei; try discriminate.
-  pose proof (W _ _ _ Ei) as Wi.
-  assert (G : forall h', (wl h' r = true) ->
-     (h' = Excl -> forall j hj pj, j <> i -> nth_error s j = Some (hj, pj) -> hj = Free) ->
-     (h' = Shared -> forall j hj pj, j <> i -> nth_error s j = Some (hj, pj) -> hj <> Excl) ->
-     all_wl (upd s i (h', r)) /\ excl_alone (upd s i (h', r))).
-  { intros h' Wr HE HS. split.
-    - intros j hj pj Hj. destruct (Nat.eq_dec i j) as [<-|N].
-      + rewrite (nth_upd_same _ _ _ _ Ei) in Hj. inversion Hj; subst. exact Wr.
-      + rewrite nth_upd_other in Hj by exact N. eapply W; eauto.
-    - intros a1 a2 h1 p1 h2 p2 H1 H2 N E1.
-      destruct (Nat.eq_dec i a1) as [<-|N1].
-      + rewrite (nth_upd_same _ _ _ _ Ei) in H1. injection H1 as Eh Ep. subst h1.
-        rewrite nth_upd_other in H2 by exact N. apply (HE E1 a2 h2 p2); [intros ->; apply N; reflexivity|exact H2].
-      + rewrite nth_upd_other in H1 by exact N1.
-        destruct (Nat.eq_dec i a2) as [<-|N2].
-        * rewrite (nth_upd_same _ _ _ _ Ei) in H2. injection H2 as Eh Ep. subst h1. rewrite <- Eh.
-          destruct h' eqn:Eh'; [reflexivity| |].
-          -- exfalso. apply (HS eq_refl a1 Excl p1); [intros ->; apply N1; reflexivity|exact H1|reflexivity].
-          -- exfalso. assert (Excl = Free) by (apply (HE eq_refl a1 Excl p1); [intros ->; apply N1; reflexivity|exact H1]). discriminate.
-        * rewrite nth_upd_other in H2 by exact N2. exact (X a1 a2 h1 p1 h2 p2 H1 H2 N E1). }
-  destruct a; simpl in Wi; destruct h; try discriminate.
-  - destruct (nobody is_held s) eqn:Nb; [|discriminate]. intros H; inversion H; subst. apply G; auto.
-    + intros _ j hj pj _ Hj. pose proof (nobody_spec _ _ Nb _ _ _ Hj). destruct hj; simpl in *; auto; discriminate.
-    + discriminate.
-  - destruct (nobody is_excl s) eqn:Nb; [|discriminate]. intros H; inversion H; subst. apply G; auto.
-    + discriminate.
-    + intros _ j hj pj _ Hj. pose proof (nobody_spec _ _ Nb _ _ _ Hj). destruct hj; simpl in *; auto; discriminate.
-  - intros H; inversion H; subst. apply G; auto; discriminate.
-  - intros H; inversion H; subst. apply G; auto; discriminate.
-  - intros H; inversion H; subst. apply G; auto; [discriminate|].
-    intros _ j hj pj Nj Hj E. subst hj. assert (Shared = Free) by (eapply (X j i); eauto). discriminate.
-  - intros H; inversion H; subst. apply G; auto; [|discriminate].
-    intros _ j hj pj Nj Hj. eapply (X i j); eauto.
-  - intros H; inversion H; subst. apply G; auto; [|discriminate].
-    intros _ j hj pj Nj Hj. eapply (X i j); eauto.
-  - intros H; inversion H; subst. apply G; auto; discriminate.
-Qed.
-
-Lemma run_inv sched : forall s, all_wl s -> excl_alone s -> all_wl (run s sched) /\ excl_alone (run s sched).
-Proof.
-  induction sched as [|i r IH]; intros s W X; simpl; auto.
-  destruct (step s i) eqn:E; auto. destruct (step_inv _ _ _ W X E). auto.
-Qed.
-
-Lemma inv_no_race s : all_wl s -> excl_alone s -> ~ race s.
-Proof.
-  intros W X (i & j & [hi pi] & [hj pj] & wi & wj & m & N & Hi & Hj & Ai & Aj & Wr).
-  pose proof (W _ _ _ Hi) as Wi. pose proof (W _ _ _ Hj) as Wj.
-  unfold next_acc in *; simpl in *.
-  destruct pi as [|[] pi]; try discriminate; destruct pj as [|[] pj]; try discriminate;
-  inversion Ai; inversion Aj; subst; simpl in *; try discriminate;
-  destruct hi; try discriminate; destruct hj; try discriminate;
-  try (assert (Excl = Free) by (eapply (X i j); eauto); discriminate);
-  try (assert (Excl = Free) by (eapply (X j i); eauto); discriminate);
-  try (assert (Shared = Free) by (eapply (X i j); eauto); discriminate);
-  try (assert (Shared = Free) by (eapply (X j i); eauto); discriminate).
-Qed.
-
-(* ---------------------------------------------------------------- programs built from a table *)
-Lemma wl_app p : forall h q, wl h p = true -> wl Free q = true -> wl h (p ++ q) = true.
-Proof.
-  induction p as [|a p IH]; intros h q Wp Wq; simpl in *.
-  - destruct h; try discriminate; auto.
-  - destruct a, h; try discriminate; auto.
-Qed.
-(* a balanced prefix is transparent *)
-Lemma wl_app_eq p : forall h q, wl h p = true -> wl h (p ++ q) = wl Free q.
-Proof.
-  induction p as [|a p IH]; intros h q Wp; simpl in *.
-  - destruct h; try discriminate; auto.
-  - destruct a, h; try discriminate; auto.
-Qed.
-(* under a held lock a balanced region can only be empty or start with an access; in both cases
-   it can be dropped / doubled without breaking the discipline *)
-Lemma wl_region_skip reg h q : wl Free reg = true -> wl h (reg ++ q) = true -> wl h q = true.
-Proof.
-  intros R W. destruct h.
-  - rewrite (wl_app_eq reg Free q R) in W. exact W.
-  - destruct reg as [|a reg]; auto. destruct a; simpl in *; discriminate.
-  - destruct reg as [|a reg]; auto. destruct a; simpl in *; discriminate.
-Qed.
-Lemma wl_region_rep reg h p q : wl Free reg = true -> wl h (reg ++ q) = true -> wl h p = true -> wl h (reg ++ p) = true.
-Proof.
-  intros R Wq W. destruct h.
-  - rewrite (wl_app_eq reg Free p R). exact W.
-  - destruct reg as [|a reg]; auto. destruct a; simpl in *; discriminate.
-  - destruct reg as [|a reg]; auto. destruct a; simpl in *; discriminate.
-Qed.
-Lemma wl_sub q : forall p h, sub p q -> wl h q = true -> wl h p = true.
-Proof.
-  intros p h S. revert h. induction S; intros h W; auto.
-  - destruct a, h; simpl in *; try discriminate; auto.
-  - apply IHS. destruct a, h; simpl in *; try discriminate; auto.
-  - pose proof (IHS h W) as W'. destruct a, h; simpl in *; try discriminate; auto.
-  - apply IHS. eapply wl_region_skip; eauto.
-  - pose proof (IHS h W) as W'. eapply wl_region_rep; eauto.
-Qed.
-
-(* a thread program: a concatenation of execution paths of table methods *)
-Definition from_table (tbl : table) (p : list act) : Prop :=
-  exists parts, p = List.concat parts /\ Forall (fun q => exists e, In e tbl /\ sub q (snd e)) parts.
-
-Lemma from_table_wl tbl p : well_locked tbl = true -> from_table tbl p -> wl Free p = true.
-Proof.
-  intros WL (parts & -> & F). induction F as [|q parts (e & Ie & Se) F IH]; simpl; auto.
-  apply wl_app; auto. eapply wl_sub; eauto.
-  unfold well_locked in WL. rewrite forallb_forall in WL. apply (WL e Ie).
-Qed.
-
-Definition init_state (progs : list (list act)) : state := map (fun p => (Free, p)) progs.
-
-Lemma init_inv tbl progs : well_locked tbl = true -> Forall (from_table tbl) progs ->
-  all_wl (init_state progs) /\ excl_alone (init_state progs).
-Proof.
-  intros WL F. split.
-  - intros i h p Hn. unfold init_state in Hn. rewrite nth_error_map in Hn.
-    destruct (nth_error progs i) eqn:E; [|discriminate]. inversion Hn; subst.
-    apply (from_table_wl tbl); auto. rewrite Forall_forall in F. apply F. eapply nth_error_In; eauto.
-  - intros i j hi pi hj pj Hi Hj _ E. unfold init_state in Hi. rewrite nth_error_map in Hi.
-    destruct (nth_error progs i); [|discriminate]. inversion Hi; subst. discriminate.
-Qed.
-
-Lemma well_locked_race_free_l : forall tbl, well_locked tbl = true ->
-  forall progs sched, Forall (from_table tbl) progs -> ~ race (run (init_state progs) sched).
-Proof.
-  intros tbl WL progs sched F. destruct (init_inv tbl progs WL F) as [W X].
-  destruct (run_inv sched _ W X). apply inv_no_race; auto.
-Qed.
-Lemma well_locked_mutex_l : forall tbl, well_locked tbl = true ->
-  forall progs sched, Forall (from_table tbl) progs -> excl_alone (run (init_state progs) sched).
-Proof.
-  intros tbl WL progs sched F. destruct (init_inv tbl progs WL F) as [W X].
-  destruct (run_inv sched _ W X). auto.
-Qed.
-(* no call-out is made while a lock is held (the RWMutex is not re-entrant: a re-entering callee would deadlock) *)
-Lemma well_locked_ext_free_l : forall tbl, well_locked tbl = true ->
-  forall progs sched, Forall (from_table tbl) progs ->
-  forall i h r, nth_error (run (init_state progs) sched) i = Some (h, AExt :: r) -> h = Free.
-Proof.
-  intros tbl WL progs sched F i h r Hn. destruct (init_inv tbl progs WL F) as [W X].
-  destruct (run_inv sched _ W X) as [W' _]. specialize (W' _ _ _ Hn). destruct h; simpl in W'; auto; discriminate.
-Qed.
-
-Lemma subb_sound q : forall p, subb p q = true -> sub p q.
-Proof.
-  induction q as [|b q IH]; intros p H; simpl in H.
-  - destruct p; [constructor|discriminate].
-  - destruct p as [|a p].
-    + apply andb_true_iff in H as [A B]. apply sub_skip; auto.
-    + apply orb_true_iff in H as [H|H]; apply andb_true_iff in H as [A B].
-      * assert (a = b).
-        { destruct a, b; simpl in A; try discriminate; auto; apply Nat.eqb_eq in A; subst; auto. }
-        subst. apply sub_keep; auto.
-      * apply sub_skip; auto.
-Qed.
+(* C10 — the generic lock-discipline development lives in coq/Common/LockDiscipline.v (it is also
+   instantiated by C09 for std/channel/channel.go); this file re-exports it under its historical name. *)
+From V.Common Require Export LockDiscipline.
